@@ -347,13 +347,13 @@ pub struct World {
 }
 
 impl World {
-    fn new(cfg: &ChainCfg, prefix: &[u16]) -> Rc<World> {
+    fn new(cfg: &ChainCfg, prefix: &[u16], observe: Regime) -> Rc<World> {
         let log = Log::new();
         let sh = Rc::new(Shared {
             log: log.clone(),
             gate_open: Cell::new(false),
             gate_waker: RefCell::new(None),
-            regime: cfg.regime,
+            regime: observe,
         });
         let mut pipes = vec![];
         let mut tasks: Vec<TaskSt> = vec![];
@@ -528,7 +528,8 @@ impl World {
         (st.head_done, st.head_abandoned, self.sh.gate_open.get()).hash(&mut h);
         for p in &self.pipes {
             let b = p.borrow();
-            (b.staged.len(), b.visible.len(), b.closed).hash(&mut h);
+            // lengths depend on random span ids (decimal / varint widths): hash emptiness only
+            (b.staged.is_empty(), b.visible.is_empty(), b.closed).hash(&mut h);
         }
         self.log.now_ns().hash(&mut h);
         self.state_hashes.borrow_mut().push(h.finish());
@@ -709,7 +710,19 @@ pub struct Exec {
     pub err: Option<String>,
 }
 
+/// Runs under whatever tracing subscriber the calling thread already has.
+pub fn execute_in_place(cfg: &ChainCfg, prefix: &[u16]) -> Exec {
+    let mut c = cfg.clone();
+    let want = c.regime;
+    c.regime = Regime::NoSubscriber; // do not install another subscriber...
+    execute_inner(&c, prefix, want)
+}
+
 pub fn execute(cfg: &ChainCfg, prefix: &[u16]) -> Exec {
+    execute_inner(cfg, prefix, cfg.regime)
+}
+
+fn execute_inner(cfg: &ChainCfg, prefix: &[u16], observe: Regime) -> Exec {
     let run = || {
         let rt = tokio::runtime::Builder::new_current_thread()
             .enable_time()
@@ -717,7 +730,7 @@ pub fn execute(cfg: &ChainCfg, prefix: &[u16]) -> Exec {
             .build()
             .unwrap();
         rt.block_on(tokio::task::unconstrained(async {
-            let w = World::new(cfg, prefix);
+            let w = World::new(cfg, prefix, observe);
             w.fingerprint();
             let drive = |w: Rc<World>| async move {
                 loop {
